@@ -31,16 +31,16 @@ H = os.path.join(core.VERIF, "harness")
 # name -> (source, Makefile program whose link list is reused, objects dropped (substituted), explicit objects or None,
 #          -max_len, has a trailing selector byte)
 TARGETS = {
-    "smtpd": ("fuzz_smtpd.c", "qmail-smtpd", ("qmail.o", "timeoutread.o", "timeoutwrite.o"), None, 4096, True),
+    "smtpd": ("fuzz_smtpd.c", "qmail-smtpd", ("qmail.o", "timeoutread.o", "timeoutwrite.o", "commands.o"), None, 4096, True),
     "qmtpd": ("fuzz_qmtpd.c", "qmail-qmtpd", ("qmail.o",), None, 4096, True),
     "qmqpd": ("fuzz_qmqpd.c", "qmail-qmqpd", ("qmail.o",), None, 4096, True),
-    "pop3d": ("fuzz_pop3d.c", "qmail-pop3d", ("timeoutread.o", "timeoutwrite.o"), None, 1024, True),
-    "popup": ("fuzz_popup.c", "qmail-popup", ("timeoutread.o", "timeoutwrite.o"), None, 1024, True),
+    "pop3d": ("fuzz_pop3d.c", "qmail-pop3d", ("timeoutread.o", "timeoutwrite.o", "commands.o"), None, 1024, True),
+    "popup": ("fuzz_popup.c", "qmail-popup", ("timeoutread.o", "timeoutwrite.o", "commands.o"), None, 1024, True),
     "inject822": ("fuzz_inject.c", "qmail-inject", ("qmail.o",), None, 4096, True),
     "dns": ("fuzz_dns.c", "dnsip", ("dns.o", "dnsdoe.o"), None, 2048, False),
     "remote-smtp": ("fuzz_remote.c", "qmail-remote", ("timeoutread.o", "timeoutwrite.o"), None, 8192, True),
     "send-reports": ("fuzz_send.c", "qmail-send", ("qsutil.o",), None, 12288, True),
-    "control": ("fuzz_control.c", None, (), "control.o constmap.o getln.a open.a case.a stralloc.a substdio.a error.a str.a fs.a".split(), 4096, True),
+    "control": ("fuzz_control.c", None, (), "constmap.o getln.a open.a case.a stralloc.a substdio.a error.a str.a fs.a".split(), 4096, True),
     "cdb": ("fuzz_cdb.c", None, (), "cdb.a error.a str.a".split(), 8192, False),
 }
 LENPROBE_OBJS = "token822.o ipalloc.o prioq.o quote.o stralloc.a error.a str.a".split()
